@@ -88,11 +88,12 @@ theorem skipped_empty {f : Nat} {p : Field} {vk : Json} {a : Val}
 
 /-- `deStruct` on an object is `mapM'` of the member step -/
 theorem deStruct_obj_step {f : Nat} {ps : List Field} {deny : Bool} {kvs : List (String × Json)}
-    {fs : List (String × Val)} (h : deStruct x σ (f + 1) ps deny (.obj kvs) = .ok (.struct fs)) :
+    {fs : List (String × Val)} (hfl : hasFlatten ps = false)
+    (h : deStruct x σ (f + 1) ps deny (.obj kvs) = .ok (.struct fs)) :
     mapM' (stepE x σ f kvs) ps = .ok fs := by
   simp only [deStruct] at h
   split at h
-  · simp at h
+  · rename_i hc; simp [hfl] at hc
   · split at h
     · simp at h
     · split at h
@@ -104,7 +105,7 @@ theorem deStruct_obj_step {f : Nat} {ps : List Field} {deny : Bool} {kvs : List 
 /-- a member present in the input object with a value that `prune` keeps is written, and its written
     value contains it -/
 theorem fields_contained {f : Nat} {kvs : List (String × Json)} :
-    ∀ (ps : List Field) (fs : List (String × Val)) (es : List (String × Json)),
+    ∀ (ps : List Field) (fs : List (String × Val)) (es : List (String × Json)), hasFlatten ps = false →
       mapM' (stepE x σ f kvs) ps = .ok fs → seFieldsR (se σ f) σ ps fs = .ok es →
       ∀ p ∈ ps, ∀ vk, Json.lookup kvs p.wire = some vk → emptyJ (prune vk) = false →
         (∀ a w, de x σ f p.ty vk = .ok a → se σ f p.ty a = .ok w →
@@ -112,9 +113,10 @@ theorem fields_contained {f : Nat} {kvs : List (String × Json)} :
         ∃ w, (p.wire, w) ∈ es ∧ contained (prune vk) (prune w) = true := by
   intro ps
   induction ps with
-  | nil => intro fs es _ _ p hp; simp at hp
+  | nil => intro fs es _ _ _ p hp; simp at hp
   | cons q r ih =>
-    intro fs es hm hse p hp vk hl hne hc
+    intro fs es hfl hm hse p hp vk hl hne hc
+    obtain ⟨hpf, hrf⟩ := hasFlatten_cons hfl
     simp only [mapM'] at hm
     cases hq : stepE x σ f kvs q with
     | error e => rw [hq] at hm; simp at hm
@@ -128,7 +130,7 @@ theorem fields_contained {f : Nat} {kvs : List (String × Json)} :
         obtain ⟨n, av⟩ := b
         simp only [seFieldsR] at hse
         split at hse
-        · simp at hse
+        · rename_i hcf; rw [hpf] at hcf; simp at hcf
         · cases hrest : seFieldsR (se σ f) σ r bs with
           | error e => rw [hrest] at hse; simp at hse
           | ok rest =>
@@ -158,7 +160,7 @@ theorem fields_contained {f : Nat} {kvs : List (String × Json)} :
                   simp only [Except.ok.injEq] at hse; subst hse
                   exact ⟨j, by simp, hc av j hde hj⟩
             · -- a later member
-              obtain ⟨w, hw, hcw⟩ := ih bs rest hr hrest p hp vk hl hne hc
+              obtain ⟨w, hw, hcw⟩ := ih bs rest hrf hr hrest p hp vk hl hne hc
               refine ⟨w, ?_, hcw⟩
               split at hse
               · simp only [Except.ok.injEq] at hse; subst hse; exact hw
@@ -169,16 +171,18 @@ theorem fields_contained {f : Nat} {kvs : List (String × Json)} :
 
 /-- the written members have pairwise distinct keys -/
 theorem seFieldsR_nodup {rec : Id → Val → Except E Json} :
-    ∀ {ps : List Field} {fs : List (String × Val)} {es : List (String × Json)},
+    ∀ {ps : List Field} {fs : List (String × Val)} {es : List (String × Json)}, hasFlatten ps = false →
       seFieldsR rec σ ps fs = .ok es → nodupB (ps.map (·.wire)) = true → nodupKeys es = true := by
   intro ps
   induction ps with
   | nil =>
-    intro fs es h _
+    intro fs es _ h _
     cases fs <;> simp [seFieldsR] at h
     subst h; rfl
   | cons p r ih =>
-    intro fs es h hnd
+    intro fs es hfl h hnd
+    obtain ⟨hpf, hrf⟩ := hasFlatten_cons hfl
+    have ih := fun {fs es} => @ih fs es hrf
     simp only [List.map_cons] at hnd
     obtain ⟨hne, hnd'⟩ := nodupB_cons hnd
     cases fs with
@@ -187,7 +191,7 @@ theorem seFieldsR_nodup {rec : Id → Val → Except E Json} :
       obtain ⟨n, v⟩ := a
       simp only [seFieldsR] at h
       split at h
-      · simp at h
+      · rename_i hcf; rw [hpf] at hcf; simp at hcf
       · split at h
         · simp at h
         · rename_i rest hrest
@@ -202,7 +206,7 @@ theorem seFieldsR_nodup {rec : Id → Val → Except E Json} :
               apply nodupB_of_forall
               · intro b hb
                 obtain ⟨kv, hkv, rfl⟩ := List.mem_map.mp hb
-                obtain ⟨q, hq, hw⟩ := seFieldsR_keys σ hrest kv hkv
+                obtain ⟨q, hq, hw⟩ := seFieldsR_keys σ hrf hrest kv hkv
                 rw [← hw]
                 exact hne q.wire (List.mem_map.mpr ⟨q, hq, rfl⟩)
               · exact hr
@@ -218,12 +222,12 @@ theorem struct_contained {f : Nat} {ps : List Field} {deny : Bool} {kvs : List (
     (h1 : deStruct x σ (f + 1) ps deny (.obj kvs) = .ok (.struct fs))
     (h2 : seStruct σ (f + 1) ps fs = .ok es) :
     containedObj (pruneObj kvs) (pruneObj es) = true := by
-  obtain ⟨_, hnd, _, _⟩ := fieldsOk_unpack σ hok
+  obtain ⟨hfl, hnd, _, _⟩ := fieldsOk_unpack σ hok
   simp only [declaredStruct, Bool.and_eq_true] at hd
   obtain ⟨hndk, hall⟩ := hd
-  have hm := deStruct_obj_step x σ h1
+  have hm := deStruct_obj_step x σ hfl h1
   simp only [seStruct] at h2
-  have hnde : nodupKeys es = true := seFieldsR_nodup σ h2 hnd
+  have hnde : nodupKeys es = true := seFieldsR_nodup σ hfl h2 hnd
   apply containedObj_iff.mpr
   intro kv hkv
   obtain ⟨k, v'⟩ := kv
@@ -239,7 +243,7 @@ theorem struct_contained {f : Nat} {ps : List Field} {deny : Bool} {kvs : List (
     have hp : p ∈ ps := List.mem_of_find?_eq_some hf
     have hw : p.wire = k := by simpa using List.find?_some hf
     have hl : Json.lookup kvs p.wire = some vk := by rw [hw]; exact lookup_of_mem hndk hmem
-    obtain ⟨w, hwm, hcw⟩ := fields_contained x σ ps fs es hm h2 p hp vk hl hne
+    obtain ⟨w, hwm, hcw⟩ := fields_contained x σ ps fs es hfl hm h2 p hp vk hl hne
       (fun a w h1 h2 => hih p hp vk a w hdecl h1 h2)
     have hne' : emptyJ (prune w) = false := contained_nonempty hcw hne
     have hmem' : (k, prune w) ∈ pruneObj es := by
